@@ -10,6 +10,9 @@ Expressions are tuples:
   ('M', spec, (va, vb), body, ('pair', at_a, at_b))   mixed second partial d/dv_j d/dv_i of (lambda va, vb: body) at (at_a, at_b),
                                spec = (outer mode, j, inner mode, i, ...) - two stacked operators on a two-argument function
 
+  ('A3k0'|'A3k1'|'A3k2', a, b, c)   three operands handed to ONE operation (an array constructor, a three-operand einsum, a
+                               concatenation): defined by desugar() as a*b + sin(c/2), a*b*c, a/2 - 3b/2 + 2c
+
 resolve(D(λy.B)(A)) = subst(∂_y resolve(B), y := resolve(A)); binders are unique so capture cannot
 occur and the reference cannot exhibit perturbation confusion.  No simplification; evaluation in floats.
 Nothing here imports autograd.
@@ -41,6 +44,16 @@ def d(e, x):
         if e[2] == 0:
             return ("c", 0.0)
         return ("*", ("*", ("c", float(e[2])), ("pow", e[1], e[2] - 1)), d(e[1], x))
+    raise ValueError(t)
+
+
+def desugar(t, a, b, c):
+    if t == "A3k0":
+        return ("+", ("*", a, b), ("sin", ("*", ("c", 0.5), c)))
+    if t == "A3k1":
+        return ("*", ("*", a, b), c)
+    if t == "A3k2":
+        return ("+", ("+", ("*", ("c", 0.5), a), ("*", ("c", -1.5), b)), ("*", ("c", 2.0), c))
     raise ValueError(t)
 
 
@@ -77,6 +90,8 @@ def resolve(e):
         vs = (va, vb)
         r = d(d(resolve(body), vs[spec[3]]), vs[spec[1]])
         return subst(subst(r, va, resolve(at[1])), vb, resolve(at[2]))
+    if t.startswith("A3"):
+        return desugar(t, *(resolve(a) for a in e[1:]))
     return (t,) + tuple(resolve(a) for a in e[1:])
 
 
